@@ -313,6 +313,8 @@ impl Store {
                     && !referenced.contains(&path)
                 {
                     let _ = fs::remove_file(&path);
+                    #[cfg(veryl_verif)]
+                    veryl_path::verif_crash::point("gc:removed", &path);
                 }
             }
         }
